@@ -330,13 +330,16 @@ structure Pres (P : Params) (act : Bool) (I : S → Prop) : Prop where
   flags      : ∀ (s : S) f g, I s → I { s with running := f, failed := g }
   calls      : ∀ (s : S) l, I s → I { s with calls := l }
   strict     : ∀ (s : S) c b, (b = true → act = true) → I s → I { s with strict := updF s.strict c b }
+  mutate     : ∀ (s : S) k k', act = true → I s → I (mutateS s k k')
   clear      : ∀ (s : S) scope, I s → I (rtClear P s scope)
   cache      : ∀ (s : S) c (p : Nat → List (List Val)), I s → I { s with cached := c, pending := p }
 
 /-- operations that are assignment paths or edits, i.e. everything except switching strict
-hints on -/
+hints on and changing a stored mutable value in place behind the channels' back (neither consults
+a hint, so either can leave a value in a strict channel that its hint rejects) -/
 def Op.noActivate : Op → Prop
   | .setStrict _ b => b = false
+  | .mutate _ _ => False
   | _ => True
 
 theorem wrap_fst (r : S × Option Err) : (wrap r).1 = r.1 := by
@@ -716,6 +719,11 @@ theorem step_pres (fuel : Nat) (s : S) (op : Op) (hop : act = true ∨ op.noActi
   | run n kw => exact runAny_pres hp fuel fuel s n kw h
   | submit n kw => exact submitRun_pres hp fuel s n kw h
   | complete n => exact completeRun_pres hp fuel s n h
+  | mutate k k' =>
+    refine hp.mutate s k k' ?_ h
+    rcases hop with ha | hn
+    · exact ha
+    · exact absurd hn (by simp [Op.noActivate])
   | setStrict c b =>
     refine hp.strict s c b ?_ h
     intro hb
@@ -768,6 +776,7 @@ theorem good_pres (P : Params) (hcopy : CopyOk P) : Pres P false (Good P) where
   flags s f g h := h
   calls s l h := h
   cache s c p h := h
+  mutate s k k' ha h := by cases ha
   strict s c b hb h := by
     intro x hs hh
     by_cases hx : x = c
@@ -845,6 +854,7 @@ theorem wf_pres (P : Params) : Pres P true (WF P) where
   calls s l h := h.of_same rfl rfl rfl rfl rfl
   strict s c b _ h := h.of_same rfl rfl rfl rfl rfl
   cache s c p h := h.of_same rfl rfl rfl rfl rfl
+  mutate s k k' _ h := h.of_same rfl rfl rfl rfl rfl
 
 theorem init_good (P : Params) (kind owner hinted strict ins outs) :
     Good P (init kind owner hinted strict ins outs) := by
